@@ -1,6 +1,472 @@
-(* C03 — stub: model not yet built (the property is listed under not_applicable until it is). *)
-From Coq Require Import List ZArith Bool.
+(* C03 — Field constructors and zap.Any deliver exactly the value they were given.
+
+   The model of the code is the semantics of C03/Lang.v applied to the tables
+   the translator regenerates from the source on every run (Gen/Constructors.v,
+   Gen/AddTo.v, Gen/AnyTable.v).  This file adds: the typing of values, the
+   SPECIFICATION (written against parameter types and constructor intent only,
+   never against the generated tables), and the wire functions.  No proofs. *)
+From Coq Require Import List ZArith Bool Lia String.
+From Coq.Strings Require Import Byte.
 Import ListNotations.
-From Zap Require Import Base.Wire.
-Definition model (i : sx) : sx := SL [].
-Definition spec (i o : sx) : bool := false.
+From Zap Require Import Base.Wire C03.Lang.
+From Zap Require Gen.Constructors Gen.AddTo Gen.AnyTable.
+Local Open Scope Z_scope.
+
+Definition T : tables :=
+  {| t_ctors := Gen.Constructors.ctors;
+     t_ftypes := Gen.AddTo.ftypes;
+     t_arms := Gen.AddTo.arms;
+     t_wrappers := Gen.Constructors.wrappers;
+     t_eq := Gen.AddTo.eq_classes;
+     t_any := Gen.AnyTable.any_table;
+     t_implements := Gen.AnyTable.implements |}.
+
+(* ---------- typing of values ---------- *)
+Definition in_rangeb (lo hi z : Z) : bool := (lo <=? z) && (z <? hi).
+
+Fixpoint in_typeb (t : gty) (v : val) {struct t} : bool :=
+  match t, v with
+  | TBool, VBool _ => true
+  | TNum n, VI z => in_numb n z
+  | TF64, VF64 b => in_rangeb 0 (2 ^ 64) b
+  | TF32, VF32 b => in_rangeb 0 (2 ^ 32) b
+  | TC128, VC128 r i => in_rangeb 0 (2 ^ 64) r && in_rangeb 0 (2 ^ 64) i
+  | TC64, VC64 r i => in_rangeb 0 (2 ^ 32) r && in_rangeb 0 (2 ^ 32) i
+  | TString, VStr _ => true
+  | TBytes, VBytes n s => implb n (match s with [] => true | _ => false end)
+  | TTime, VTime _ => true
+  | TLoc, VLoc _ => true
+  | TIface IAny, VCalls _ => false        (* not a Go value *)
+  | TIface IAny, _ => true
+  | TIface IError, VNil => true           (* a nil error is a documented input; nil marshalers/Stringers are not *)
+  | TIface _, VOpq _ => true
+  | TAddrOf _, VOpq _ => true
+  | TPtr _, VNil => true
+  | TPtr t', VPtr u => in_typeb t' u
+  | TSlice t', VSlice a l => implb (a =? 0) (match l with [] => true | _ => false end) && forallb (in_typeb t') l
+  | TField, VFld _ _ _ _ _ => true
+  | TNone, _ => true
+  | _, _ => false
+  end.
+
+(* ---------- normal form of an observed call list ---------- *)
+(* The property is about the VALUE an encoder receives, so calls are compared up to the class of
+   the encoder method: AddInt64/AddInt32/.../AppendInt8 all deliver "a signed integer". *)
+Definition method_classes : list (name * name) := [
+  (($"AddBool"), ($"bool")); (($"AppendBool"), ($"bool"));
+  (($"AddInt"), ($"int")); (($"AddInt64"), ($"int")); (($"AddInt32"), ($"int")); (($"AddInt16"), ($"int")); (($"AddInt8"), ($"int"));
+  (($"AppendInt"), ($"int")); (($"AppendInt64"), ($"int")); (($"AppendInt32"), ($"int")); (($"AppendInt16"), ($"int")); (($"AppendInt8"), ($"int"));
+  (($"AddUint"), ($"uint")); (($"AddUint64"), ($"uint")); (($"AddUint32"), ($"uint")); (($"AddUint16"), ($"uint")); (($"AddUint8"), ($"uint")); (($"AddUintptr"), ($"uint"));
+  (($"AppendUint"), ($"uint")); (($"AppendUint64"), ($"uint")); (($"AppendUint32"), ($"uint")); (($"AppendUint16"), ($"uint")); (($"AppendUint8"), ($"uint")); (($"AppendUintptr"), ($"uint"));
+  (($"AddFloat64"), ($"f64")); (($"AppendFloat64"), ($"f64")); (($"AddFloat32"), ($"f32")); (($"AppendFloat32"), ($"f32"));
+  (($"AddComplex128"), ($"c128")); (($"AppendComplex128"), ($"c128")); (($"AddComplex64"), ($"c64")); (($"AppendComplex64"), ($"c64"));
+  (($"AddString"), ($"string")); (($"AppendString"), ($"string"));
+  (($"AddBinary"), ($"binary")); (($"AddByteString"), ($"bytestring")); (($"AppendByteString"), ($"bytestring"));
+  (($"AddDuration"), ($"duration")); (($"AppendDuration"), ($"duration"));
+  (($"AddTime"), ($"time")); (($"AppendTime"), ($"time"));
+  (($"AddReflected"), ($"reflect")); (($"AppendReflected"), ($"reflect"));
+  (($"AddArray"), ($"array")); (($"AppendArray"), ($"array"));
+  (($"AddObject"), ($"object")); (($"AppendObject"), ($"object"));
+  (($"OpenNamespace"), ($"namespace")); (($"MarshalLogObject"), ($"inline"))
+].
+
+Definition class_of (m : name) : name :=
+  match assoc m method_classes with Some c => c | None => ($"?") ++ m end.
+
+Fixpoint norm_val (v : val) : val :=
+  match v with
+  | VCalls l => VCalls (map (fun c => match c with (m, k, x) => (class_of m, k, norm_val x) end) l)
+  | _ => v
+  end.
+Definition norm_calls (l : list call) : list call :=
+  map (fun c => match c with (m, k, x) => (class_of m, k, norm_val x) end) l.
+
+(* ---------- the model: constructor then AddTo ---------- *)
+Definition addto_fuel (v : val) : nat := S (S (val_depth v)).
+
+Definition deliver (stack : bytes) (c : name) (k : bytes) (v : val) : option (field * list call) :=
+  match construct T ctor_fuel stack c k v with
+  | Some f => match addto T (addto_fuel v) f with
+              | Some cs => Some (f, cs)
+              | None => None
+              end
+  | None => None
+  end.
+
+(* zap.Any: the first clause of the type switch that matches the dynamic type *)
+Fixpoint any_lookup (tbl : list (gty * name)) (ty : gty) (impls : list iface) : name :=
+  match tbl with
+  | [] => ($"Reflect")
+  | (TIface i, c) :: r => if existsb (iface_eqb i) impls then c else any_lookup r ty impls
+  | (t, c) :: r => if gty_eqb t ty then c else any_lookup r ty impls
+  end.
+
+(* ==================== SPECIFICATION ==================== *)
+Definition num_class (n : num) : name :=
+  match n with NDuration => ($"duration") | _ => if num_signed n then ($"int") else ($"uint") end.
+
+(* what a constructor is FOR, where the parameter type does not say it (hand-written) *)
+Definition intents : list (name * name) := [
+  (($"Binary"), ($"binary")); (($"ByteString"), ($"bytestring"));
+  (($"Object"), ($"object")); (($"Array"), ($"array")); (($"Inline"), ($"inline")); (($"Reflect"), ($"reflect"));
+  (($"Stringer"), ($"stringer")); (($"Error"), ($"error")); (($"NamedError"), ($"error"));
+  (($"Skip"), ($"skip")); (($"Namespace"), ($"namespace")); (($"Stack"), ($"stack")); (($"StackSkip"), ($"stack"));
+  (($"Dict"), ($"dict")); (($"dictField"), ($"dict")); (($"nilField"), ($"nil"))
+].
+Definition intent (nm : name) : name :=
+  match assoc nm intents with Some i => i | None => [] end.
+
+(* one element of a slice constructor: the same element, in order; nil errors skipped; an error
+   is an object holding its message under ($"error"); a Stringer is its String() *)
+Definition exp_elem (t : gty) (x : val) : option (list call) :=
+  match t, x with
+  | TBool, VBool _ => Some [(($"bool"), [], x)]
+  | TNum n, VI _ => Some [(num_class n, [], x)]
+  | TF64, VF64 _ => Some [(($"f64"), [], x)]
+  | TF32, VF32 _ => Some [(($"f32"), [], x)]
+  | TC128, VC128 _ _ => Some [(($"c128"), [], x)]
+  | TC64, VC64 _ _ => Some [(($"c64"), [], x)]
+  | TString, VStr _ => Some [(($"string"), [], x)]
+  | TBytes, VBytes _ _ => Some [(($"bytestring"), [], x)]
+  | TTime, VTime _ => Some [(($"time"), [], x)]
+  | TIface IObjM, VOpq _ => Some [(($"object"), [], x)]
+  | TAddrOf IObjM, VOpq _ => Some [(($"object"), [], VPtr x)]
+  | TIface IStringer, VOpq o => Some [(($"string"), [], VStr (ostr o))]
+  | TIface IError, VNil => Some []
+  | TIface IError, VOpq o =>
+      Some [(($"object"), [], VCalls [(($"string"), bs ($"error"), VStr (oerr o))])]
+  | _, _ => None
+  end.
+
+(* typed constructors: the value itself, under the method class of its type; a nil pointer is an
+   explicit null; a slice is an array of its elements (nil and empty alike) *)
+Fixpoint exp_typed (t : gty) (k : bytes) (v : val) {struct t} : option (list call) :=
+  match t, v with
+  | TPtr _, VNil => Some [(($"reflect"), k, VNil)]
+  | TPtr t', VPtr u => exp_typed t' k u
+  | TSlice t', VSlice _ l =>
+      option_map (fun cs => [(($"array"), k, VCalls cs)]) (oconcat (exp_elem t') l)
+  | TBool, VBool _ => Some [(($"bool"), k, v)]
+  | TNum n, VI _ => Some [(num_class n, k, v)]
+  | TF64, VF64 _ => Some [(($"f64"), k, v)]
+  | TF32, VF32 _ => Some [(($"f32"), k, v)]
+  | TC128, VC128 _ _ => Some [(($"c128"), k, v)]
+  | TC64, VC64 _ _ => Some [(($"c64"), k, v)]
+  | TString, VStr _ => Some [(($"string"), k, v)]
+  | TTime, VTime _ => Some [(($"time"), k, v)]
+  | _, _ => None
+  end.
+
+(* Dict: an object holding, in order, what each given field adds *)
+Definition exp_dict (k : bytes) (v : val) : option (list call) :=
+  match v with
+  | VSlice _ l =>
+      option_map (fun cs => [(($"object"), k, VCalls (norm_calls cs))])
+        (oconcat (fun x => match field_of_val x with Some f => addto T (S (val_depth v)) f | None => None end) l)
+  | _ => None
+  end.
+
+Definition expected (stack : bytes) (nm : name) (t : gty) (k : bytes) (v : val) : option (list call) :=
+  let i := intent nm in
+  if bytes_eqb i ($"binary") then match v with VBytes _ _ => Some [(($"binary"), k, v)] | _ => None end
+  else if bytes_eqb i ($"bytestring") then match v with VBytes _ _ => Some [(($"bytestring"), k, v)] | _ => None end
+  else if bytes_eqb i ($"object") then match v with VOpq _ => Some [(($"object"), k, v)] | _ => None end
+  else if bytes_eqb i ($"array") then match v with VOpq _ => Some [(($"array"), k, v)] | _ => None end
+  else if bytes_eqb i ($"inline") then match v with VOpq _ => Some [(($"inline"), [], v)] | _ => None end
+  else if bytes_eqb i ($"reflect") then Some [(($"reflect"), k, v)]
+  else if bytes_eqb i ($"stringer") then match v with VOpq o => Some [(($"string"), k, VStr (ostr o))] | _ => None end
+  else if bytes_eqb i ($"error") then
+    match v with
+    | VNil => Some []                        (* nil errors are skipped *)
+    | VOpq o => Some [(($"string"), if bytes_eqb nm ($"Error") then bs ($"error") else k, VStr (oerr o))]
+    | _ => None
+    end
+  else if bytes_eqb i ($"skip") then Some []
+  else if bytes_eqb i ($"namespace") then Some [(($"namespace"), k, VNil)]
+  else if bytes_eqb i ($"stack") then Some [(($"string"), k, VStr stack)]
+  else if bytes_eqb i ($"nil") then Some [(($"reflect"), k, VNil)]
+  else if bytes_eqb i ($"dict") then exp_dict k v
+  else exp_typed t k v.
+
+(* zap.Any: the typed constructor of the dynamic type; otherwise the marshaler interfaces, then
+   error, then Stringer; otherwise reflection *)
+Definition base_name (t : gty) : option name :=
+  match t with
+  | TBool => Some ($"Bool") | TC128 => Some ($"Complex128") | TC64 => Some ($"Complex64")
+  | TF64 => Some ($"Float64") | TF32 => Some ($"Float32") | TString => Some ($"String") | TTime => Some ($"Time")
+  | TNum NInt => Some ($"Int") | TNum NInt64 => Some ($"Int64") | TNum NInt32 => Some ($"Int32")
+  | TNum NInt16 => Some ($"Int16") | TNum NInt8 => Some ($"Int8")
+  | TNum NUint => Some ($"Uint") | TNum NUint64 => Some ($"Uint64") | TNum NUint32 => Some ($"Uint32")
+  | TNum NUint16 => Some ($"Uint16") | TNum NUint8 => Some ($"Uint8") | TNum NUintptr => Some ($"Uintptr")
+  | TNum NDuration => Some ($"Duration")
+  | _ => None
+  end.
+Definition natural (t : gty) : option name :=
+  match t with
+  | TBytes => Some ($"Binary")
+  | TSlice (TNum NUint8) => None            (* []uint8 IS []byte *)
+  | TSlice (TIface IError) => Some ($"Errors")
+  | TSlice TField => Some ($"dictField")
+  | TPtr t' => option_map (fun b => b ++ ($"p")) (base_name t')
+  | TSlice t' => option_map (fun b => b ++ ($"s")) (base_name t')
+  | _ => base_name t
+  end.
+Definition spec_any (t : gty) (impls : list iface) : name :=
+  match natural t with
+  | Some c => c
+  | None =>
+      if existsb (iface_eqb IObjM) impls then ($"Object")
+      else if existsb (iface_eqb IArrM) impls then ($"Array")
+      else if existsb (iface_eqb IError) impls then ($"NamedError")
+      else if existsb (iface_eqb IStringer) impls then ($"Stringer")
+      else ($"Reflect")
+  end.
+(* the parameter type under which the chosen constructor sees the value *)
+Definition any_param (c : name) (t : gty) : gty :=
+  match find_ctor c (t_ctors T) with Some ct => c_param ct | None => t end.
+
+(* a value equals itself (no NaN, no func) -- the guard of Equals' reflexivity for payloads that
+   are compared with reflect.DeepEqual *)
+Fixpoint self_equal (v : val) : bool :=
+  match v with
+  | VOpq o => oself o || negb (oaddr o =? 0)
+  | VF64 b => negb (f64_nan b)
+  | VF32 b => negb (f32_nan b)
+  | VC128 r i => negb (f64_nan r) && negb (f64_nan i)
+  | VC64 r i => negb (f32_nan r) && negb (f32_nan i)
+  | VPtr u | VWrap _ u => self_equal u
+  | VSlice a l => negb (a =? 0) || forallb self_equal l
+  | VFld _ _ _ _ x => self_equal x
+  | VCalls _ => false                       (* not a Go value *)
+  | _ => true
+  end.
+(* which parts of a constructor's input end up as a DeepEqual-compared payload *)
+Fixpoint payload_self (t : gty) (v : val) {struct t} : bool :=
+  match t, v with
+  | (TIface _ | TAddrOf _ | TField), _ => self_equal v
+  | TPtr t', VPtr u => payload_self t' u
+  | TSlice t', VSlice a l => negb (a =? 0) || forallb (payload_self t') l
+  | _, _ => true
+  end.
+
+(* the interfaces a case claims for a dynamic type that zap.Any lists must be those of the
+   translator's implements table (monitor of the table the Any theorem relies on) *)
+Definition has (impls : list iface) (i : iface) : bool := existsb (iface_eqb i) impls.
+Definition is_iface (t : gty) : bool := match t with TIface _ => true | _ => false end.
+Definition listedb (ty : gty) : bool :=
+  existsb (fun e => negb (is_iface (fst e)) && gty_eqb (fst e) ty) (t_any T).
+Definition table_impl (ty : gty) (i : iface) : bool :=
+  existsb (fun q => gty_eqb (fst q) ty && iface_eqb (snd q) i) (t_implements T).
+Definition four : list iface := [IObjM; IArrM; IError; IStringer].
+Definition consistentb (ty : gty) (impls : list iface) : bool :=
+  negb (listedb ty) || forallb (fun i => Bool.eqb (has impls i) (table_impl ty i)) four.
+
+(* what the constructors put into Field.Interface, per Equals class: the facts Equals relies on *)
+Definition fwfb (f : field) : bool :=
+  match eq_class T f with
+  | QBytes => match f_ifc f with VBytes _ _ => true | _ => false end
+  | QComplexBits =>
+      match rassoc (f_ty f) (t_ftypes T), f_ifc f with
+      | Some ft, VC128 _ _ => bytes_eqb ft ($"Complex128Type")
+      | Some ft, VC64 _ _ => bytes_eqb ft ($"Complex64Type")
+      | _, _ => false
+      end
+  | QDeep => true
+  | QDefault => match f_ifc f with VNil | VLoc _ | VTime _ => true | _ => false end
+  end.
+Definition fself (f : field) : bool :=
+  match eq_class T f with QDeep => self_equal (f_ifc f) | _ => true end.
+
+(* ==================== wire ==================== *)
+Definition ss (b : bytes) : name := b.
+
+Fixpoint sx_of_val (v : val) : sx :=
+  match v with
+  | VI z => SL [SZ 0; SZ z]
+  | VBool b => SL [SZ 1; of_bool b]
+  | VF64 b => SL [SZ 2; SZ b]
+  | VF32 b => SL [SZ 3; SZ b]
+  | VC128 r i => SL [SZ 4; SZ r; SZ i]
+  | VC64 r i => SL [SZ 5; SZ r; SZ i]
+  | VStr s => SL [SZ 6; SB s]
+  | VBytes n s => SL [SZ 7; of_bool n; SB s]
+  | VTime t => SL [SZ 8; SZ (tinst t); SZ (tloc t)]
+  | VLoc l => SL [SZ 9; SZ l]
+  | VOpq o => SL [SZ 10; SZ (oty o); SZ (oaddr o); SZ (ocontent o); of_bool (ocmp o); of_bool (oself o); SB (ostr o); SB (oerr o)]
+  | VNil => SL [SZ 11]
+  | VPtr u => SL [SZ 12; sx_of_val u]
+  | VSlice a l => SL [SZ 13; SZ a; SL (map sx_of_val l)]
+  | VWrap w u => SL [SZ 14; SB (bs w); sx_of_val u]
+  | VFld t k i s x => SL [SZ 15; SZ t; SB k; SZ i; SB s; sx_of_val x]
+  | VCalls l => SL [SZ 16; SL (map (fun c => match c with (m, k, x) => SL [SB (bs m); SB k; sx_of_val x] end) l)]
+  end.
+
+Fixpoint val_of_sx (s : sx) : val :=
+  match s with
+  | SL (SZ tag :: args) =>
+      match tag, args with
+      | 0, [SZ z] => VI z
+      | 1, [SZ b] => VBool (negb (b =? 0))
+      | 2, [SZ b] => VF64 b
+      | 3, [SZ b] => VF32 b
+      | 4, [SZ r; SZ i] => VC128 r i
+      | 5, [SZ r; SZ i] => VC64 r i
+      | 6, [SB b] => VStr b
+      | 7, [SZ n; SB b] => VBytes (negb (n =? 0)) b
+      | 8, [SZ i; SZ l] => VTime {| tinst := i; tloc := l |}
+      | 9, [SZ l] => VLoc l
+      | 10, [SZ a; SZ b; SZ c; SZ d; SZ e; SB f; SB g] =>
+          VOpq {| oty := a; oaddr := b; ocontent := c; ocmp := negb (d =? 0); oself := negb (e =? 0); ostr := f; oerr := g |}
+      | 11, [] => VNil
+      | 12, [u] => VPtr (val_of_sx u)
+      | 13, [SZ a; SL l] => VSlice a (map val_of_sx l)
+      | 14, [SB w; u] => VWrap (ss w) (val_of_sx u)
+      | 15, [SZ t; SB k; SZ i; SB s'; x] => VFld t k i s' (val_of_sx x)
+      | 16, [SL l] =>
+          VCalls (map (fun c => match c with
+                                | SL [SB m; SB k; x] => (ss m, k, val_of_sx x)
+                                | _ => (($""), [], VNil)
+                                end) l)
+      | _, _ => VNil
+      end
+  | _ => VNil
+  end.
+
+Definition num_of_Z (z : Z) : num :=
+  match z with
+  | 0 => NInt | 1 => NInt64 | 2 => NInt32 | 3 => NInt16 | 4 => NInt8
+  | 5 => NUint | 6 => NUint64 | 7 => NUint32 | 8 => NUint16 | 9 => NUint8 | 10 => NUintptr
+  | _ => NDuration
+  end.
+Definition iface_of_Z (z : Z) : iface :=
+  match z with 0 => IObjM | 1 => IArrM | 2 => IError | 3 => IStringer | _ => IAny end.
+Fixpoint gty_of_sx (s : sx) : gty :=
+  match s with
+  | SL (SZ tag :: args) =>
+      match tag, args with
+      | 0, [] => TBool
+      | 1, [SZ n] => TNum (num_of_Z n)
+      | 2, [] => TF64 | 3, [] => TF32 | 4, [] => TC128 | 5, [] => TC64
+      | 6, [] => TString | 7, [] => TBytes | 8, [] => TTime | 9, [] => TLoc
+      | 10, [SZ i] => TIface (iface_of_Z i)
+      | 11, [t] => TPtr (gty_of_sx t)
+      | 12, [t] => TSlice (gty_of_sx t)
+      | 13, [] => TField
+      | 14, [SZ i] => TAddrOf (iface_of_Z i)
+      | 15, [] => TNone
+      | 16, [SZ i] => TUser i
+      | _, _ => TNone
+      end
+  | _ => TNone
+  end.
+
+Definition sx_of_field (f : field) : sx :=
+  sx_of_val (VFld (f_ty f) (f_key f) (f_int f) (f_str f) (f_ifc f)).
+Definition sx_of_calls (l : list call) : sx := sx_of_val (VCalls l).
+Definition panic_sx : sx := SL [SZ (-1)].
+
+Definition param_of (c : name) : gty :=
+  match find_ctor c (t_ctors T) with Some ct => c_param ct | None => TNone end.
+
+Definition sx_of_ores (r : option bool) : sx :=
+  SZ (match r with Some false => 0 | Some true => 1 | None => 2 end).
+
+(* cases:
+     (0 #name #key val #stack)                      -> (field calls) | (-1)
+     (1 dynty (iface ...) #key val #typedname)     -> (anyfield anycalls typedfield equals) | (-1)
+     (2 (#name #key val) (#name #key val))         -> (r12 r21 r11 r22), r = 0 false | 1 true | 2 panic *)
+Definition dec_triple (s : sx) : name * bytes * val :=
+  (ss (sx_b (sx_nth s 0)), sx_b (sx_nth s 1), val_of_sx (sx_nth s 2)).
+
+Definition model (i : sx) : sx :=
+  match sx_z (sx_nth i 0) with
+  | 0 =>
+      let '(c, k, v) := (ss (sx_b (sx_nth i 1)), sx_b (sx_nth i 2), val_of_sx (sx_nth i 3)) in
+      match deliver (sx_b (sx_nth i 4)) c k v with
+      | Some (f, cs) => SL [sx_of_field f; sx_of_calls cs]
+      | None => panic_sx
+      end
+  | 1 =>
+      let ty := gty_of_sx (sx_nth i 1) in
+      let impls := map (fun s => iface_of_Z (sx_z s)) (sx_l (sx_nth i 2)) in
+      let k := sx_b (sx_nth i 3) in
+      let v := val_of_sx (sx_nth i 4) in
+      let tc := ss (sx_b (sx_nth i 5)) in
+      match deliver [] (any_lookup (t_any T) ty impls) k v, construct T ctor_fuel [] tc k v with
+      | Some (f, cs), Some g => SL [sx_of_field f; sx_of_calls cs; sx_of_field g; sx_of_ores (equals T f g)]
+      | _, _ => panic_sx
+      end
+  | _ =>
+      let '(c1, k1, v1) := dec_triple (sx_nth i 1) in
+      let '(c2, k2, v2) := dec_triple (sx_nth i 2) in
+      match construct T ctor_fuel [] c1 k1 v1, construct T ctor_fuel [] c2 k2 v2 with
+      | Some f, Some g =>
+          SL [sx_of_ores (equals T f g); sx_of_ores (equals T g f); sx_of_ores (equals T f f); sx_of_ores (equals T g g)]
+      | _, _ => panic_sx
+      end
+  end.
+
+(* the observed calls, normalised, are exactly the expected ones *)
+Definition calls_ok (obs : sx) (exp : option (list call)) : bool :=
+  match exp, val_of_sx obs with
+  | Some e, VCalls l => sx_eqb (sx_of_calls (norm_calls l)) (sx_of_calls e)
+  | _, _ => false
+  end.
+
+Definition spec (i o : sx) : bool :=
+  match sx_z (sx_nth i 0) with
+  | 0 =>
+      let '(c, k, v) := (ss (sx_b (sx_nth i 1)), sx_b (sx_nth i 2), val_of_sx (sx_nth i 3)) in
+      calls_ok (sx_nth o 1) (expected (sx_b (sx_nth i 4)) c (param_of c) k v)
+  | 1 =>
+      let ty := gty_of_sx (sx_nth i 1) in
+      let impls := map (fun s => iface_of_Z (sx_z s)) (sx_l (sx_nth i 2)) in
+      let k := sx_b (sx_nth i 3) in
+      let v := val_of_sx (sx_nth i 4) in
+      let tc := ss (sx_b (sx_nth i 5)) in
+      let want := spec_any ty impls in
+      (* Any delivers what the typed constructor of the dynamic type is specified to deliver ... *)
+      consistentb ty impls &&
+      calls_ok (sx_nth o 1) (expected [] want (param_of want) k v) &&
+      (* ... and, when that constructor is the one the value was built for, the two Fields are
+         identical and compare equal *)
+      (if bytes_eqb want tc
+       then sx_eqb (sx_nth o 0) (sx_nth o 2) && (negb (payload_self (param_of tc) v) || (sx_z (sx_nth o 3) =? 1))
+       else true)
+  | _ =>
+      let r12 := sx_z (sx_nth o 0) in let r21 := sx_z (sx_nth o 1) in
+      let r11 := sx_z (sx_nth o 2) in let r22 := sx_z (sx_nth o 3) in
+      let '(c1, k1, v1) := dec_triple (sx_nth i 1) in
+      let '(c2, k2, v2) := dec_triple (sx_nth i 2) in
+      (* never panics; symmetric; reflexive; equal inputs compare equal *)
+      negb (r12 =? 2) && negb (r21 =? 2) && negb (r11 =? 2) && negb (r22 =? 2) &&
+      (r12 =? r21) && (r11 =? 1) && (r22 =? 1) &&
+      (if sx_eqb (sx_nth i 1) (sx_nth i 2) then r12 =? 1 else true)
+  end.
+
+(* well-formed case: a known constructor applied to a value of its parameter type, encoded
+   canonically (for Dict: members that AddTo accepts); for zap.Any the same for the constructor
+   the specification names and for the typed constructor the case compares with, and interface
+   claims that agree with the table; for Equals cases the reflexivity guard (DeepEqual-compared
+   payloads equal themselves) -- the cases outside that guard are the known finding
+   "equals-deepequal-nonreflexive" *)
+Definition canon (s : sx) : bool := sx_eqb (sx_of_val (val_of_sx s)) s.
+Definition known (c : name) : bool := match find_ctor c (t_ctors T) with Some _ => true | None => false end.
+Definition is_some {A} (o : option A) : bool := match o with Some _ => true | None => false end.
+Definition wf_app (stack : bytes) (c : name) (k : bytes) (v : val) : bool :=
+  known c && in_typeb (param_of c) v && is_some (expected stack c (param_of c) k v).
+Definition wf_triple (s : sx) : bool :=
+  let '(c, k, v) := dec_triple s in
+  canon (sx_nth s 2) && wf_app [] c k v && payload_self (param_of c) v.
+Definition wf (i : sx) : bool :=
+  match sx_z (sx_nth i 0) with
+  | 0 => canon (sx_nth i 3) &&
+         wf_app (sx_b (sx_nth i 4)) (ss (sx_b (sx_nth i 1))) (sx_b (sx_nth i 2)) (val_of_sx (sx_nth i 3))
+  | 1 => let ty := gty_of_sx (sx_nth i 1) in
+         let impls := map (fun s => iface_of_Z (sx_z s)) (sx_l (sx_nth i 2)) in
+         let k := sx_b (sx_nth i 3) in
+         let v := val_of_sx (sx_nth i 4) in
+         canon (sx_nth i 4) && consistentb ty impls &&
+         wf_app [] (spec_any ty impls) k v && wf_app [] (ss (sx_b (sx_nth i 5))) k v
+  | _ => wf_triple (sx_nth i 1) && wf_triple (sx_nth i 2)
+  end.
